@@ -334,7 +334,7 @@ impl Tracer for RecTracer {
                 w.tracer_thread_name.insert(self.id, std::thread::current().name().unwrap_or("?").to_string());
             }
             if self.latch {
-                let deadline = Instant::now() + Duration::from_secs(30);
+                let deadline = Instant::now() + crate::session::wd(Duration::from_secs(30));
                 while w.epoch == self.epoch && w.latched.contains(&self.id) {
                     let now = Instant::now();
                     if now >= deadline {
@@ -517,7 +517,7 @@ impl Action for GateAction {
             g.arrived
         };
         shared().cv.notify_all();
-        let deadline = Instant::now() + Duration::from_secs(30);
+        let deadline = Instant::now() + crate::session::wd(Duration::from_secs(30));
         loop {
             if w.epoch != self.epoch {
                 break;
